@@ -14,7 +14,7 @@ from contracts import registry, base   # noqa: E402
 names = []
 bad = []
 props = [json.loads(l)['id'] for l in open(os.path.join(HERE, 'properties.jsonl'))]
-open(base.BASELINE, 'w').write('[]')
+os.environ['VERIF_EMPTY_BASELINE'] = '1'      # never empty the live file: checks running concurrently would see no baseline
 for pid in props:
     chk = Check(pid, 'quick', 0)
     registry.run(chk, pid)
@@ -25,5 +25,7 @@ for pid in props:
     for u in chk.undecided:
         if 'obligation-count' not in u['name']:
             print('UNDECIDED', pid, u['name'], u['why'][:200])
-json.dump(sorted(set(names)), open(base.BASELINE, 'w'), indent=0)
+tmp = base.BASELINE + '.tmp'
+json.dump(sorted(set(names)), open(tmp, 'w'), indent=0)
+os.replace(tmp, base.BASELINE)
 print(len(set(names)), 'obligations in the baseline;', len(bad), 'not discharged:', bad[:20])
